@@ -37,25 +37,32 @@ NoWire == <<-1>>
 VARIABLES sc,      \* the session's scenario: [ty, val, plan]
           pc,      \* next operation of the plan
           obj,     \* slot -> NoObj | Obj(v)
-          wire     \* syntax -> octets last produced | NoWire
-vars == <<sc, pc, obj, wire>>
+          wire,    \* syntax -> octets last produced | NoWire
+          dec      \* restartable decoding session (C05): [st, slot, syn, enc, pos]
+vars == <<sc, pc, obj, wire, dec>>
+NoDec == [st |-> "idle", slot |-> 0, syn |-> "", enc |-> <<>>, pos |-> 0]
 
 TypeOf(s) == TRef(s.ty)
 InitSession(s) == /\ sc = s /\ pc = 1
                   /\ obj = [i \in Slots |-> NoObj]
                   /\ wire = [x \in Syntaxes |-> NoWire]
+                  /\ dec = NoDec
 StartSession(s) == /\ sc' = s /\ pc' = 1
                    /\ obj' = [i \in Slots |-> NoObj]
                    /\ wire' = [x \in Syntaxes |-> NoWire]
+                   /\ dec' = NoDec
 
 \* ---- operations -----------------------------------------------------------
 OpBuild(slot) == [a |-> "Build", slot |-> slot]
 OpEncode(slot, syn) == [a |-> "Encode", slot |-> slot, syn |-> syn]
 OpDecode(slot, syn) == [a |-> "Decode", slot |-> slot, syn |-> syn]     \* decodes wire[syn]
 OpCompare(s1, s2) == [a |-> "Compare", s1 |-> s1, s2 |-> s2]
+OpDecodeLit(slot, syn, bytes) == [a |-> "DecodeLit", slot |-> slot, syn |-> syn, bytes |-> bytes]  \* one-shot, given octets
+OpStartDecode(slot, syn, bytes) == [a |-> "StartDecode", slot |-> slot, syn |-> syn, bytes |-> bytes]
+OpDecodeCall(avail) == [a |-> "DecodeCall", avail |-> avail]   \* decoder called with octets pos+1..avail
 
 Build(op) == /\ obj' = [obj EXCEPT ![op.slot] = Obj(sc.val)]
-             /\ UNCHANGED wire
+             /\ UNCHANGED <<wire, dec>>
 \* The encoder's result.  ByteExact: the octets the reference encoder prescribes (C02).
 \* Otherwise (and for the syntaxes without a byte-exact reference) the action is a relation:
 \* some octets obs, bound to the logged bytes by the trace specification -- but a canonical
@@ -68,21 +75,48 @@ EncodeWire(op, obs) ==
   ELSE obs
 Encode(op, obs) == /\ obj[op.slot].st = "val"
                    /\ wire' = [wire EXCEPT ![op.syn] = EncodeWire(op, obs)]
-                   /\ UNCHANGED obj
+                   /\ UNCHANGED <<obj, dec>>
 \* decoding is the inverse of the encoder relation: the bytes in wire[syn] are an
 \* encoding of exactly one value (model-level invariant: injectivity), the session value
 Decode(op) == /\ wire[op.syn] # NoWire
               /\ obj' = [obj EXCEPT ![op.slot] = Obj(sc.val)]
-              /\ UNCHANGED wire
+              /\ UNCHANGED <<wire, dec>>
 Compare(op) == /\ obj[op.s1].st = "val" /\ obj[op.s2].st = "val"
-               /\ UNCHANGED <<obj, wire>>
+               /\ UNCHANGED <<obj, wire, dec>>
+\* The octets given to DecodeLit / StartDecode are, by construction of the scenario, a valid
+\* encoding of the session's value (generator: reference encoder or variant relation).
+DecodeLit(op) == /\ obj' = [obj EXCEPT ![op.slot] = Obj(sc.val)]
+                 /\ UNCHANGED <<wire, dec>>
+\* Restartable decoding (C05).  The caller owns the stream enc; each call presents the octets
+\* not yet consumed, up to avail.  The contract: while octets are missing the decoder answers
+\* WMORE and consumes some prefix of what it was shown; shown everything, it answers OK, has
+\* consumed everything, and the structure holds the value.
+StartDecode(op) == /\ dec' = [st |-> "active", slot |-> op.slot, syn |-> op.syn, enc |-> op.bytes, pos |-> 0]
+                   /\ obj' = [obj EXCEPT ![op.slot] = NoObj]
+                   /\ UNCHANGED wire
+DecodeCall(op, consumed) ==
+  /\ dec.st = "active" /\ op.avail <= Len(dec.enc) /\ dec.pos <= op.avail
+  /\ IF op.avail < Len(dec.enc)
+     THEN /\ consumed \in 0..(op.avail - dec.pos)                  \* rc = WMORE
+          /\ dec' = [dec EXCEPT !.pos = @ + consumed]
+          /\ UNCHANGED obj
+     ELSE /\ consumed = op.avail - dec.pos                          \* rc = OK
+          /\ dec' = [dec EXCEPT !.pos = op.avail, !.st = "done"]
+          /\ obj' = [obj EXCEPT ![dec.slot] = Obj(sc.val)]
+  /\ UNCHANGED wire
 
+\* obs: what the trace binds (logged octets of an opaque encoder, logged consumed count);
+\* the generator explores with the neutral observation GenObs
+GenObs == [bytes |-> OpaqueWire, consumed |-> 0]
 Step(obs) == /\ pc <= Len(sc.plan)
         /\ pc' = pc + 1
         /\ UNCHANGED sc
         /\ LET op == sc.plan[pc] IN
              CASE op.a = "Build" -> Build(op)
-               [] op.a = "Encode" -> Encode(op, obs)
+               [] op.a = "Encode" -> Encode(op, obs.bytes)
+               [] op.a = "DecodeLit" -> DecodeLit(op)
+               [] op.a = "StartDecode" -> StartDecode(op)
+               [] op.a = "DecodeCall" -> DecodeCall(op, IF op.avail < Len(dec.enc) THEN obs.consumed ELSE op.avail - dec.pos)
                [] op.a = "Decode" -> Decode(op)
                [] op.a = "Compare" -> Compare(op)
 
@@ -109,6 +143,25 @@ Faults(op, ev) ==
               \cup When(ev.size # Len(wire[op.syn]), "size-differs")
               \cup (IF ~Has(ev, "val") \/ ~ev.wf THEN {"decoded-malformed"}
                     ELSE When(~SessVal(ev.val), "value-differs"))
+    [] op.a = "DecodeLit" ->
+         IF ev.rc # "OK" THEN {"rc-not-ok"}
+         ELSE When(ev.consumed # Len(op.bytes), "consumed-differs")
+              \cup (IF ~Has(ev, "val") \/ ~ev.wf THEN {"decoded-malformed"}
+                    ELSE When(~SessVal(ev.val), "value-differs"))
+    [] op.a = "StartDecode" -> {}
+    [] op.a = "DecodeCall" ->
+         IF dec.st # "active" THEN {"no-decoding-session"}
+         ELSE LET pres == op.avail - dec.pos IN
+              When(ev.presented # pres, "presented-differs") \cup
+              (IF op.avail < Len(dec.enc)
+               THEN (IF ev.rc = "OK" THEN {"early-ok"}
+                     ELSE IF ev.rc = "FAIL" THEN {"fail-on-prefix"}
+                     ELSE IF ev.rc # "WMORE" THEN {"bad-rc"}
+                     ELSE When(ev.consumed > pres, "consumed-exceeds-presented"))
+               ELSE (IF ev.rc # "OK" THEN {"rc-not-ok"}
+                     ELSE When(ev.consumed # pres, "consumed-differs")
+                          \cup (IF ~Has(ev, "val") \/ ~ev.wf THEN {"decoded-malformed"}
+                                ELSE When(~SessVal(ev.val), "value-differs"))))
     [] op.a = "Compare" ->
          IF obj[op.s1].st # "val" \/ obj[op.s2].st # "val" THEN {"no-object"}
          ELSE When((ev.ret = 0) # SameValue(RawEnv, TypeOf(sc), obj[op.s1].v, obj[op.s2].v), "compare-differs")
@@ -116,5 +169,9 @@ Faults(op, ev) ==
 
 \* ---- invariants (the properties, stated on the model) ----------------------
 RoundTrip == \A i \in Slots : obj[i].st = "val" => SameValue(RawEnv, TypeOf(sc), obj[i].v, sc.val)
+\* C05 on the model: a decoding session never runs ahead of its stream, and a finished one
+\* has consumed exactly the stream
+DecSound == /\ dec.pos <= Len(dec.enc)
+            /\ (dec.st = "done" => dec.pos = Len(dec.enc) /\ obj[dec.slot] = Obj(sc.val))
 WireCanonical == ByteExact => \A s \in Syntaxes : wire[s] # NoWire /\ ~Opaque(s) => wire[s] = Enc(s, TypeOf(sc), sc.val)
 =============================================================================
